@@ -320,6 +320,8 @@ func (q c02Then) eval(s *c02Stream, _ time.Time) bool {
 		for gi, gn := range re.SubexpNames() {
 			if gn != "" && sm[2*gi] >= 0 {
 				vars[gn] = data[d][off[d]:][sm[2*gi]:sm[2*gi+1]]
+			} else if gn != "" {
+				vars[gn] = "" // the group took no part in the match: empty text, as in regexp's submatches
 			}
 		}
 		m := sm[:2]
@@ -453,7 +455,7 @@ func genAtom(rng *rand.Rand, withData bool) c02Q {
 		}
 		if os.Getenv("C02_VARS") != "" && rng.Intn(3) == 0 {
 			// a named group in the first element, its text required again by a later element
-			cap := []string{"(?P<v>ba[rz])", "(?P<v>fo+)", "(?P<v>[a-z]{3})", "x(?P<v>f.o)", "(?P<v>GET|PUT) /"}[rng.Intn(5)]
+			cap := []string{"(?P<v>ba[rz])", "(?P<v>fo+)", "(?P<v>[a-z]{3})", "x(?P<v>f.o)", "(?P<v>GET|PUT) /", "(?P<v>x)?fo", "(?:(?P<v>ba)|o)o"}[rng.Intn(7)]
 			use := []string{"@v@", "@v@b", "o@v@", "@v@|xyz"}[rng.Intn(4)]
 			th.E = []c02Data{{[]string{"cdata", "sdata"}[rng.Intn(2)], cap}, {[]string{"cdata", "sdata"}[rng.Intn(2)], use}}
 			if rng.Intn(3) == 0 {
